@@ -58,4 +58,8 @@ GCfgZero == ZeroTimeouts({c \in ConfigsOver({"udp", "recv", "fallback"}, {0}, {F
                              c.hasq /\ ~c.anysrc /\ c.it /\ (c.api = "fallback" \/ ~c.rot)})
 GCfgClock == GCfgClock0 \cup GCfgZero
 GCfgV6 == ConfigsOver({"udp"}, {5}, {FALSE}, {"v6"})
+\* other kinds of message sent (NOTIFY, STATUS, dynamic UPDATE), every option set, udp and the rest
+GCfgOps == WithOpcodes(ConfigsOver({"udp"}, {5}, {FALSE}, {"v4"}), {"NOTIFY", "STATUS", "UPDATE"})
+GCfgOpsApi == WithOpcodes({c \in ConfigsOver({"recv", "fallback"}, {5}, {FALSE}, {"v4"}) : ~c.anysrc /\ c.it /\ ~c.iu},
+                          {"NOTIFY", "STATUS", "UPDATE"})
 =============================================================================
